@@ -178,6 +178,9 @@ func (e *env) nvChain(n int) []nvElem {
 	for len(vs) < n {
 		w := vs[rnd.Intn(len(vs))]
 		j := 1 + rnd.Intn(3)
+		if rnd.Chance(1, 3) {
+			j = rnd.Intn(10) // every component of the ten, the deep ones (pre-release / post / dev slots of pep440, rhctag parts) included
+		}
 		w.V[j] += int32(rnd.Intn(3))
 		if rnd.Chance(1, 4) {
 			w.V[j] = 0
@@ -185,6 +188,7 @@ func (e *env) nvChain(n int) []nvElem {
 		vs = append(vs, w)
 	}
 	sort.SliceStable(vs, func(i, j int) bool { return cmpV(vs[i], vs[j]) < 0 })
+	e.countSlots("normalized", len(vs), func(i, j int) string { return slotNV(vs[i], vs[j]) })
 	var out []nvElem
 	rank := 0
 	for i, v := range vs {
